@@ -147,11 +147,30 @@ def _library_did_exact_em(case):
         _verif.unregister(cb)
     if len(trace) != case.iterations:
         return None
+    if any(mm.ill_conditioned(m, case) for m, _, _ in trace):
+        # the comparison with the reference EM is not meaningful on a
+        # numerical guard (collapsing component, floored eigenvalue)
+        return 'ill-conditioned'
+    # rounding in the posterior grows with the condition number of a Gaussian
+    # covariance (within-class spread 1e-4 next to a between-class spread of
+    # several units after a blurred start: 1e9 and more)
+    cond = 1.0
+    if case.kind in ('gmm', 'gcacgmm'):
+        for m, _, _ in trace:
+            cov = np.asarray(m.gaussian.covariance, dtype=np.float64)
+            if cov.ndim >= 2 and cov.shape[-1] == cov.shape[-2] and \
+                    case.opts.get('covariance_type', 'full' if case.kind == 'gmm'
+                                  else 'spherical') == 'full':
+                ev = np.linalg.eigvalsh((cov + np.swapaxes(cov, -1, -2)) / 2)
+                cond = max(cond, float(np.max(ev[..., -1] / np.maximum(ev[..., 0], 1e-300))))
+        if cond > 1e12:
+            return 'ill-conditioned'
+    e_tol = 1e-7 * max(1.0, cond / 1e7)
     try:
         for it, (model, aff, q) in enumerate(trace):
             if it > 0:
                 exp_aff, exp_q = c08.estep_oracle(case, trace[it - 1][0])
-                ok, _ = close(aff, exp_aff, atol=1e-7)
+                ok, _ = close(aff, exp_aff, atol=e_tol)
                 if not ok:
                     return False
                 if q is not None and not close(q, exp_q, rtol=1e-6, atol=1e-12)[0]:
@@ -164,6 +183,8 @@ def _library_did_exact_em(case):
 
 def _outside_basin_or_violation(case, clause, detail, kind):
     exact = _library_did_exact_em(case)
+    if exact == 'ill-conditioned':
+        raise Borderline('a model of the trajectory sits on a numerical guard (' + clause + ')')
     if exact:
         raise Borderline('every step equals the reference EM: exact EM itself '
                          'leaves the true partition here (' + clause + ')')
@@ -181,9 +202,12 @@ def _check(d, ctx, kind):
                  options=case.meta.get('opts'))
     ctx.label(kind, f'gain_span={case.meta["gain_span"]}', f'K={K}', f'iter={case.iterations}',
               'blur' if case.meta['beta'] >= 0.1 else 'sharp')
-    model = ctx.lib(mm.fit, case)
-    post = ctx.lib(mm.predict, model, case)
-    fp = ctx.lib(mm.fit, case, method='fit_predict')
+    # an explicit refusal (a component collapsed on the way: scikit-learn's
+    # "ill-defined empirical covariance", Bingham's scatter assertion) is EM
+    # leaving the basin, not a wrong answer
+    model = ctx.lib(mm.fit, case, allow_if=mm.explicit_refusal)
+    post = ctx.lib(mm.predict, model, case, allow_if=mm.explicit_refusal)
+    fp = ctx.lib(mm.fit, case, method='fit_predict', allow_if=mm.explicit_refusal)
     # fit_predict is fit followed by predict: the same numbers (this also keeps
     # the reference-EM cross-check below, which observes ``fit``, valid for it)
     # (GMMTrainer.fit_predict has another default weight_constant_axis, (-2,),
